@@ -289,3 +289,17 @@ where
         (self.x.len(), self.s.len())
     }
 }
+
+// ---------------------------------------------
+// verification hooks (pub wrapper, no behaviour change)
+// ---------------------------------------------
+#[cfg(clarabel_verif)]
+pub fn verif_shift_to_cone_interior<T>(
+    z: &mut [T],
+    cones: &mut CompositeCone<T>,
+    pd: PrimalOrDualCone,
+) where
+    T: FloatT,
+{
+    _shift_to_cone_interior(z, cones, pd)
+}
